@@ -5,6 +5,7 @@ import SJ.Proofs.Escape
 import SJ.Proofs.WalkSafe
 import SJ.Proofs.MarshalExact
 import SJ.Proofs.GoEscape
+import SJ.Proofs.GoMarshal
 /-
 C10 — MarshalJSON emits valid JSON denoting the same document.
 -/
@@ -129,5 +130,24 @@ theorem C10_escapeBytes_follows_source (dst src : Bytes) (fuel : Nat) (tape : Ar
     ∃ s, runFun goFuns goescapeBytes fuel ⟨[("dst", .bytes dst), ("src", .bytes src)], tape⟩ =
           .ret s [.bytes (escapeBytes dst src)] ∧ s.tape = tape :=
   escapeBytes_sim dst src fuel tape
+
+open SJ.GoSem SJ.Generated SJ.GoIter SJ.GoObject SJ.GoMarshal in
+/-- **Source tie** (DESIGN §6.3). `Iter.MarshalJSONBuffer` (`parsed_json.go`, 170 lines: the write loop, the stack of
+    open containers, the key prefix, the tag switch with its nested root switch and labelled breaks, the separators after
+    each value, the closing of what is still open) is printed from /repo as a syntax tree on every run. Its meaning under
+    `GoSem.exec` is the model's `Iter.marshalBuf` that `C10_marshal_exact` is about: from a valid cursor (`0 ≤ addNext`,
+    view inside the tape, string buffers consistent) the Go code returns `out, nil` exactly when the model returns `out`,
+    a non-nil error exactly when the model errs, and does not panic; the tape is untouched. `cur < 2^63` excludes
+    hand-made iterators only (every cursor the library builds has a 56-bit `cur`; beyond 2^63 Go's `int(i.cur)` is
+    negative and the model, which compares the natural number, differs — shown by example in `Proofs/GoMarshal`). -/
+theorem C10_marshal_follows_source (pj : PJ) (hb : BufOK pj) (i : Iter) (hl : i.lim ≤ pj.tape.size)
+    (ha : 0 ≤ i.addNext) (hcur : i.cur.toNat < 2^63) (dst : Bytes) (F : Nat) (hF : fuelOf pj + i.lim + 9 ≤ F) :
+    (∀ out, i.marshalBuf pj dst = .ok out ↔
+      ∃ st, runFun goFuns goIter_MarshalJSONBuffer F ⟨initEnv pj i dst, pj.tape⟩ = .ret st [.bytes out, .bool false] ∧
+        st.tape = pj.tape) ∧
+    ((∃ er, i.marshalBuf pj dst = .error er) ↔
+      ∃ st v, runFun goFuns goIter_MarshalJSONBuffer F ⟨initEnv pj i dst, pj.tape⟩ = .ret st [v, .bool true]) ∧
+    runFun goFuns goIter_MarshalJSONBuffer F ⟨initEnv pj i dst, pj.tape⟩ ≠ .panic :=
+  go_marshal_source_tie_valid pj hb i hl ha hcur dst F hF
 
 end SJ.Properties.C10
